@@ -724,52 +724,6 @@ def generated_obligations(ctx):
 # ------------------------------------------------------------------------------ the oracle proper (all entry points)
 
 
-def _exhaustive_small(ctx):
-    """small scopes swept completely: every octet value at every position of a short message,
-    under four option combinations; every 1- and 2-octet name wire"""
-    fails = []
-    n = 0
-    base = bytes.fromhex("123401000001000100000001") + nm([b"a"]) + struct.pack("!HH", 1, 1) + b"\xc0\x0c" + \
-        struct.pack("!HHIH", 15, 1, 300, 4) + b"\x00\x0a\xc0\x0c" + b"\0" + struct.pack("!HHIH", 41, 1232, 0, 0)
-    positions = range(len(base)) if ctx.tier == "thorough" else range(2, len(base), 1)
-    vals = range(256) if ctx.tier == "thorough" else list(range(0, 256, 5)) + [0xC0, 0xFF, 0x3F, 0x40]
-    for pos in positions:
-        for v in vals:
-            w = base[:pos] + bytes([v]) + base[pos + 1:]
-            for bits in (0, 8, 8 | 2 | 1, 4 | 8):
-                n += 1
-                out, f = P.run_probe("msg_wire", [w, bits], seconds=None)
-                if f:
-                    fails.append(f)
-                    if len([x for x in fails if x["kind"] == "hang"]) >= 3:
-                        return n, fails
-    # every string over a small alphabet up to length 4 (quick) / 5 (thorough), as a name, a TTL,
-    # a TXT rdata, an A rdata and a zone line
-    import itertools
-
-    alpha = ["1", "w", "\\", ".", '"', "(", " ", "9"]
-    for ln in range(0, (6 if ctx.tier == "thorough" else 5)):
-        for tup in itertools.product(alpha, repeat=ln):
-            t = "".join(tup)
-            for e, p in (("name_text", [t, 1, 0]), ("ttl_text", [t]), ("rdata_text", [1, 16, t, 1, 1]), ("rdata_text", [1, 1, t, 0, 0]),
-                         ("zone_text", ["$ORIGIN example.\n" + t + " 300 IN A 10.0.0.1\n" + t + "\n", 1, 1, 0])):
-                n += 1
-                out, f = P.run_probe(e, p)
-                if f:
-                    fails.append(f)
-                    if len([x for x in fails if x["kind"] == "hang"]) >= 3:
-                        return n, fails
-    for a in range(256):
-        for b in (range(256) if ctx.tier == "thorough" else (0, 1, 12, 63, 64, 0xC0, 0xFF)):
-            n += 1
-            out, f = P.run_probe("name_wire", [bytes([a, b, 0]), 0], seconds=None)
-            if f:
-                fails.append(f)
-                if len([x for x in fails if x["kind"] == "hang"]) >= 3:
-                    return n, fails
-    return n, fails
-
-
 def extra(ctx):
     """the oracle proper: rounds of fuzz batches on VERIF_C04_PROCS processes until the time box
     (quick 75 s, thorough 600 s) or the probe cap is reached; batch seeds depend only on VERIF_SEED
@@ -779,7 +733,7 @@ def extra(ctx):
     fails = []
     counts = {}
     procs = min(8, int(os.environ.get("VERIF_C04_PROCS", "8")))
-    box = float(os.environ.get("VERIF_C04_SECONDS", ctx.n(45, 300)))
+    box = float(os.environ.get("VERIF_C04_SECONDS", ctx.n(30, 300)))
     cap = int(os.environ.get("VERIF_C04_PROBES", ctx.n(1500000, 12000000)))
     floor = int(os.environ.get("VERIF_C04_MIN_PROBES", ctx.n(40000, 400000)))
     per = ctx.n(2500, 10000)
@@ -804,9 +758,26 @@ def extra(ctx):
                 ctx.count("probe:" + k, v)
                 nsweep += v
             fails += fs
+        n_ex = 0
+        if not hung:
+            ex = [("small:" + ctx.tier, i, procs) for i in range(procs)]
+            it = pool.imap_unordered(P.sweep_batch, ex)
+            for _ in ex:
+                try:
+                    c, fs = it.next(timeout=900)
+                except mp.TimeoutError:
+                    fails.append({"kind": "hang", "entry": "sweep", "what": "a small-scope shard did not finish within 900 s", "sig": "sweep-hang"})
+                    pool.terminate()
+                    hung = True
+                    break
+                for k, v in c.items():
+                    ctx.count("probe:" + k, v)
+                    n_ex += v
+                fails += fs
+        t_rand = time.time()
         while not hung:
             done_probes = sum(counts.values())
-            if done_probes >= cap or (time.time() - t0 > box and done_probes >= floor):
+            if done_probes >= cap or (time.time() - t_rand > box and done_probes >= floor):
                 break
             jobs = [(ctx.seed * 7919 + 17 * (nbatch + i), per, None) for i in range(procs)]
             nbatch += procs
@@ -822,8 +793,6 @@ def extra(ctx):
                 for k, v in c.items():
                     counts[k] = counts.get(k, 0) + v
                 fails += fs
-    n_ex, f_ex = _exhaustive_small(ctx)
-    fails += f_ex
     for k, v in counts.items():
         ctx.count("probe:" + k, v)
     nprobe = sum(counts.values())
